@@ -357,7 +357,14 @@ func (g *TreeGen) arity() int {
 
 func (g *TreeGen) void() Arg {
 	r := g.r
-	switch r.Intn(8) {
+	switch r.Intn(11) {
+	case 8:
+		// a Dict that renders nothing is a null item like any other (also beside real items in Values)
+		return &Dict{}
+	case 9:
+		return &Dict{Pairs: [][2]Arg{{st(kw("Null")), st(id("x"))}}}
+	case 10:
+		return &Dict{Pairs: [][2]Arg{{st(id("k")), st()}, {st(kw("Null")), st(id("y"))}}}
 	case 0:
 		return Nil{}
 	case 1:
